@@ -3,7 +3,7 @@
    Pass/CopyWF.v, Pass/CopySim.v (composition with C01) and Pass/CopyHeap.v
    (shared-heap model of Python object aliasing). *)
 From PyRTL Require Import Netlist.Sem Netlist.WFDefs Sim.SimModel Sim.SimCorrect
-  Pass.Copy Pass.CopyProofs Pass.CopyWF Pass.CopySim Pass.CopyHeap.
+  Pass.Copy Pass.CopyProofs Pass.CopyWF Pass.CopySim Pass.CopyGen Pass.CopyHeap.
 
 (* (1) THE behavioural theorem.  For EVERY netlist, every injective map f of wire
    identities, every default value, register_value_map, memory_value_map and
@@ -117,16 +117,80 @@ Proof.
 Qed.
 Print Assumptions C11_nonupdating_pass_runs_on_isomorphic_copy.
 
-(* The full statement for the code as it is (Pass/Copy.v `clone_kind`): *)
+(* The full statement for the code as it is: *)
 Definition C11_copy_isomorphic_statement : Prop :=
   forall nl, fst (copy_block nl) = rename (snd (copy_block nl)) nl.
 
-(* >>> F2 SWITCH.  /repo's clone_wire now passes reset_value, `clone_kind` is
-   `clone_kind_spec`, and the full statement holds of the model of the code as
-   it is (the model is re-tied to the real copy_block on every run).        <<< *)
+(* `clone_kind` is read off Gen/CopyAttrs.v `gen_clone_wire`, REGENERATED on every
+   run from the source of transform.clone_wire by py/genfrag_C11.py: the full
+   statement is re-proved against what the code says now. *)
 Theorem C11_copy_isomorphic : C11_copy_isomorphic_statement.
-Proof. intro nl. apply copy_isomorphic_of. reflexivity. Qed.
+Proof. exact copy_isomorphic_current. Qed.
 Print Assumptions C11_copy_isomorphic.
+
+(* The translated fragments (Gen/CopyAttrs.v, nothing hand-written):
+   clone_wire keeps class, bitwidth, Const value and Register reset_value for
+   every wire class ... *)
+Theorem C11_clone_wire_keeps_every_attribute : forall name x,
+  gen_clone_wire name x = mkWire name (wwidth x) (wkind x).
+Proof. exact gen_clone_wire_keeps. Qed.
+Print Assumptions C11_clone_wire_keeps_every_attribute.
+
+(* ... the clone loop of _clone_block_and_wires covers every declared wire ... *)
+Theorem C11_generated_clone_loop_covers_every_wire : forall f ws x,
+  In x ws -> In (gen_clone_wire (f (wname x)) x) (gen_clone_wires f ws).
+Proof. exact gen_clone_wires_all. Qed.
+Print Assumptions C11_generated_clone_loop_covers_every_wire.
+
+(* ... _make_copy followed by `new_mem.id = old_mem.id` keeps the part of a
+   memory the netlist semantics reads (id, widths, ROM contents) whatever id the
+   constructor drew; a MemBlock copy keeps EVERY constructor attribute (name,
+   widths, asynchronous, max_read_ports, max_write_ports); a RomBlock copy keeps
+   every one (incl. romdata and pad_with_zeros) EXCEPT build_new_roms, which
+   RomBlock._make_copy does not pass ... *)
+Theorem C11_memory_copy_keeps_netlist_part : forall fid a,
+  core_mem (gen_get_new_block_mem_instance fid a) = core_mem a.
+Proof. exact gen_mem_copy_core. Qed.
+Print Assumptions C11_memory_copy_keeps_netlist_part.
+
+Theorem C11_memblock_copy_keeps_all_attributes : forall fid a,
+  ma_rom a = None -> ma_pad a = false -> ma_newroms a = false ->
+  gen_get_new_block_mem_instance fid a = a.
+Proof. exact gen_memblock_copy_keeps_all. Qed.
+Print Assumptions C11_memblock_copy_keeps_all_attributes.
+
+Theorem C11_romblock_copy_keeps_all_but_build_new_roms : forall fid a,
+  is_rom a = true -> ma_max_write a = Some 0 ->
+  gen_get_new_block_mem_instance fid a = without_newroms a
+  /\ (ma_newroms a = false -> gen_get_new_block_mem_instance fid a = a).
+Proof.
+  intros fid a H1 H2. split; [exact (gen_romblock_copy_keeps fid a H1 H2)|].
+  exact (gen_romblock_copy_keeps_all fid a H1 H2).
+Qed.
+Print Assumptions C11_romblock_copy_keeps_all_but_build_new_roms.
+
+(* ... and copy_block assembled from ONLY those fragments (gen_clone_wires,
+   gen_copy_net, gen_make_copy_mem) is the model every theorem above is about:
+   it is the renaming of the source under an injective map, and behaves like the
+   source from reset on every wire, every cycle, every input sequence. *)
+Theorem C11_generated_copy_is_model : forall nl, copy_block_gen nl = copy_block nl.
+Proof. exact copy_block_gen_is_model. Qed.
+Print Assumptions C11_generated_copy_is_model.
+
+Theorem C11_generated_copy_isomorphic : forall nl,
+  fst (copy_block_gen nl) = rename (snd (copy_block_gen nl)) nl /\ injective (snd (copy_block_gen nl)).
+Proof. exact copy_gen_isomorphic. Qed.
+Print Assumptions C11_generated_copy_isomorphic.
+
+Theorem C11_generated_copy_behaviour : forall nl dflt regmap memmap inss,
+  seq_arity nl = true ->
+  let '(cp, f) := copy_block_gen nl in
+  Forall2 (val_rel f)
+    (fst (run nl dflt (init_state nl dflt regmap memmap) inss))
+    (fst (run cp dflt (init_state cp dflt (rename_map f regmap) memmap)
+              (map (shift_ins (fresh_offset nl)) inss))).
+Proof. exact copy_gen_behaviour. Qed.
+Print Assumptions C11_generated_copy_behaviour.
 
 (* What the defect F2 was (kept as a regression theorem about the defective
    clone policy `clone_kind_f2`, KReg _ |-> KReg None): for
@@ -151,7 +215,7 @@ Print Assumptions C11_copy_keeps_every_declared_wire.
 Theorem C11_copy_keeps_interface : forall nl,
   iface (fst (copy_block nl))
   = map (fun p => (snd (copy_block nl) (fst (fst p)), snd (fst p), snd p)) (iface nl).
-Proof. exact copy_spec_interface. Qed.
+Proof. exact copy_block_interface. Qed.
 Print Assumptions C11_copy_keeps_interface.
 
 (* (3) identities: no wire of the copy is a wire of the source; same counts;
@@ -307,3 +371,14 @@ Example C11_example_dangling_pins :
         (fst (run cp 0 (init_state cp 0 [] []) (map (shift_ins 5) [(fun w => w + 2); (fun _ => 3)])))
       = probe_at [1; 2; 3] (fst (run ex_pins 0 (init_state ex_pins 0 [] []) [(fun w => w + 2); (fun _ => 3)]))).
 Proof. vm_compute. repeat split; reflexivity. Qed.
+
+(* attribute records satisfying the premises of the memory-copy theorems: a
+   read/write MemBlock and a padded RomBlock; the generated copy of the ROM with
+   build_new_roms=True differs from it exactly there *)
+Example C11_example_memory_attributes :
+  let m := mkMAttrs 7 11 8 3 true None (Some 1) None false false in
+  let r := mkMAttrs 9 12 4 2 true (Some 2) (Some 0) (Some [(0, 5); (1, 3)]) true false in
+  let r' := mkMAttrs 9 12 4 2 true (Some 2) (Some 0) (Some [(0, 5); (1, 3)]) true true in
+  gen_get_new_block_mem_instance 100 m = m /\ gen_get_new_block_mem_instance 101 r = r
+  /\ gen_get_new_block_mem_instance 102 r' = r /\ r' <> r.
+Proof. vm_compute. repeat split; try reflexivity. intro H. discriminate H. Qed.
